@@ -160,17 +160,24 @@ def run(ctx):
     fams = [("lrx", PermutationGroups.lrx(9)), ("top_spin", PermutationGroups.top_spin(9)), ("pancake", PermutationGroups.pancake(9))]
     if not ctx.quick():
         fams += [("lx", PermutationGroups.lx(9)), ("cyclic_coxeter", PermutationGroups.cyclic_coxeter(9)), ("lrx10", PermutationGroups.lrx(10))]
-    # a Cayley graph of a random non-identity central permutation and a random (not inverse-closed) generator pair moving the last position
+    # a Cayley graph of a random non-identity central permutation and a random (not inverse-closed) generator pair
     rp = G.rand_perm(rng, 9)
     g1, g2 = G.rand_perm(rng, 9), G.rand_perm(rng, 9)
-    if g1[8] == 8 and g2[8] == 8:
-        g1[7], g1[8] = g1[8], g1[7]
     fams.insert(1, ("random_pair_random_start", CayleyGraphDef.create([g1, g2], central_state=rp)))
+    # generator sets that all treat the trailing position alike: every painted batch lies in ONE chunk (F26: IndexError before fix 40d8e7d);
+    # (a) both take the trailing symbol from the same place, (b) all fix it (the orbit stays inside one 8!-chunk), (c) a repeated generator
+    h1 = G.rand_perm(rng, 9)
+    h2 = list(h1)
+    i, j = rng.sample(range(8), 2)
+    h2[i], h2[j] = h2[j], h2[i]
+    fams.insert(2, ("agree_on_trailing", CayleyGraphDef.create([h1, h2], central_state=G.rand_perm(rng, 9))))
+    fams.insert(3, ("trailing_fixed", CayleyGraphDef.create([[1, 2, 3, 4, 5, 6, 7, 0, 8], [1, 0, 2, 3, 4, 5, 6, 7, 8]])))
+    fams.insert(4, ("repeated_generator", CayleyGraphDef.create([[1, 2, 3, 4, 5, 6, 7, 8, 0], [1, 2, 3, 4, 5, 6, 7, 8, 0]])))
     bm_cases, bm_metas = [], []
     # n = 10 (two trailing positions): adjacent transpositions incl. (8 9), and L, R with a swap of the trailing pair - depth-limited
     ten = [("coxeter10_depth4", PermutationGroups.coxeter(10), (4,)),
            ("lr_swap89_depth5", CayleyGraphDef.create([[1, 2, 3, 4, 5, 6, 7, 8, 9, 0], [9, 0, 1, 2, 3, 4, 5, 6, 7, 8], [0, 1, 2, 3, 4, 5, 6, 7, 9, 8]]), (5,))]
-    runs = [(name, d, (10**6, 5)) for name, d in fams[: ctx.budget(3, 7)]] + ten
+    runs = [(name, d, (10**6, 5)) for name, d in fams[: ctx.budget(6, 10)]] + ten
     for name, d, depths in runs:
         graph = CayleyGraph(d, device="cpu")
         for maxd in depths:
@@ -197,10 +204,9 @@ def run(ctx):
         ctx.violation("correspondence", "bit-mask engine model differs from the implementation", bm_metas[i], False)
     ctx.cov["disagreements_checked"] += len(bm_cases)
     ctx.count("bitmask_engine_model_runs", len(bm_cases))
-    # outside the documented domain the engine fails the way the model says: n = 8 (assertion), all generators fixing the trailing position (IndexError)
+    # outside the documented domain the engine fails the way the model says: n = 8 (assertion)
     ecases, emetas = [], []
-    for nm, gens, n in (("n=8", [[1, 2, 3, 4, 5, 6, 7, 0], [1, 0, 2, 3, 4, 5, 6, 7]], 8),
-                        ("trailing position fixed", [[1, 2, 3, 4, 5, 6, 7, 0, 8], [1, 0, 2, 3, 4, 5, 6, 7, 8]], 9)):
+    for nm, gens, n in (("n=8", [[1, 2, 3, 4, 5, 6, 7, 0], [1, 0, 2, 3, 4, 5, 6, 7]], 8),):
         try:
             bfs_bitmask(CayleyGraph(CayleyGraphDef.create(gens), device="cpu"), max_diameter=3)
             ctx.count("bitmask_outside_domain_no_error")
